@@ -198,27 +198,27 @@ def ref_branches(layout, program, v0=None):
     ne, npn, nc = layout
     qi = qindex(layout)
     el = unwrap_letters(program)
-    out = []
-
-    def rec(i, v, pr, outs, creg):
-        if i == len(el):
-            out.append((tuple(outs), pr, v, tuple(creg)))
-            return
-        l = el[i]
-        if not is_measuring(l):
-            v2, _ = ref_apply(v, l, qi)
-            rec(i + 1, v2, pr, outs, creg)
-            return
-        q = qi(l[1], l[2])
-        p = sv.prob_z(v, q)
-        for o in (0, 1):
-            if p[o] > 1e-9:
-                v2, _ = ref_apply(v, l, qi, o)
-                c2 = list(creg)
-                c2[letter_cregs(l)[0]] = o
-                rec(i + 1, v2, pr * p[o], outs + [o], c2)
-    rec(0, sv.zero(ne + npn) if v0 is None else v0, 1.0, [], [0] * nc)
-    return out
+    # iterative (a long circuit must not hit the interpreter's recursion limit); branch order = depth-first, outcome 0 first
+    branches = [([], 1.0, sv.zero(ne + npn) if v0 is None else v0, [0] * nc)]
+    for l in el:
+        nxt = []
+        for outs, pr, v, creg in branches:
+            if not is_measuring(l):
+                v2, _ = ref_apply(v, l, qi)
+                nxt.append((outs, pr, v2, creg))
+                continue
+            q = qi(l[1], l[2])
+            p = sv.prob_z(v, q)
+            for o in (0, 1):
+                if p[o] > 1e-9:
+                    v2, _ = ref_apply(v, l, qi, o)
+                    c2 = list(creg)
+                    c2[letter_cregs(l)[0]] = o
+                    nxt.append((outs + [o], pr * p[o], v2, c2))
+        branches = nxt
+        if len(branches) > 4096:
+            raise ValueError("more than 4096 outcome branches")
+    return [(tuple(o), pr, v, tuple(c)) for o, pr, v, c in branches]
 
 
 def signature(layout, program):
